@@ -212,7 +212,7 @@ class Sampler:
         from .model import Group
         it = m["item"]
         if it.max != 1:
-            return 3 if it.max == "unbounded" else it.max
+            return 3 if it.max == "unbounded" else min(it.max, 4)
         # path of groups from the content root to the item
         def path(g, acc):
             for x in g.items:
@@ -227,7 +227,7 @@ class Sampler:
         cap = 1
         for g in chain:
             if g.max != 1:
-                n = 3 if g.max == "unbounded" else g.max
+                n = 3 if g.max == "unbounded" else min(g.max, 4)
                 leaves = sum(1 for x in g.items if not isinstance(x, Group)) + sum(1 for x in g.items if isinstance(x, Group)) * 2
                 if g.kind == "choice" or leaves == 1:
                     cap = max(cap, n)
